@@ -28,6 +28,7 @@ type Engine struct {
 	// globals that are never stored to outside package init, with their constant initialiser (if simple)
 	constGlobal map[*ssa.Global]*ssa.Const
 	errGlobal   map[*ssa.Global]bool // initialised once with errors.New / fmt.Errorf: distinct non-nil
+	zeroGlobal  map[*ssa.Global]bool // never stored, zero value (any type)
 	bytesGlobal map[*ssa.Global]string // never-reassigned []byte global initialised from a constant string
 	storedGlob  map[*ssa.Global]int
 	loadErrs    []string
@@ -116,6 +117,7 @@ func (e *Engine) scanGlobals() {
 	e.constGlobal = map[*ssa.Global]*ssa.Const{}
 	e.errGlobal = map[*ssa.Global]bool{}
 	e.bytesGlobal = map[*ssa.Global]string{}
+	e.zeroGlobal = map[*ssa.Global]bool{}
 	e.storedGlob = map[*ssa.Global]int{}
 	initVal := map[*ssa.Global]ssa.Value{}
 	addrTaken := map[*ssa.Global]bool{}
@@ -167,6 +169,12 @@ func (e *Engine) scanGlobals() {
 		}
 		switch x := v.(type) {
 		case *ssa.Const:
+			if x.Value == nil {
+				if _, isBasic := x.Type().Underlying().(*types.Basic); !isBasic {
+					e.zeroGlobal[g] = true
+					continue
+				}
+			}
 			e.constGlobal[g] = x
 		case *ssa.Call:
 			if cal := x.Call.StaticCallee(); cal != nil {
@@ -197,6 +205,8 @@ func (e *Engine) scanGlobals() {
 				if _, has := initVal[g]; !has && e.storedGlob[g] == 0 && !addrTaken[g] {
 					if b, ok := g.Type().(*types.Pointer).Elem().Underlying().(*types.Basic); ok && b.Info()&(types.IsInteger|types.IsBoolean) != 0 {
 						e.constGlobal[g] = ssa.NewConst(nil, g.Type().(*types.Pointer).Elem())
+					} else if _, isStruct := g.Type().(*types.Pointer).Elem().Underlying().(*types.Struct); isStruct {
+						e.zeroGlobal[g] = true
 					}
 				}
 			}
